@@ -65,8 +65,10 @@ class SDPAImplementation(pattern.RewriteRuleClassBase):
             if self._use_mask_broadcast:
                 one = op.Constant(value_ints=[1])
                 query_length = op.Shape(query, start=2, end=3)
-                shape_11S1 = op.Concat(one, one, query_length, one, axis=0)
-                mask = op.Expand(mask, shape_11S1)
+                # MultiHeadAttention broadcasts attention_bias over dims 0 and 1 only
+                kv_length = op.Shape(value, start=2, end=3)
+                shape_11ST = op.Concat(one, one, query_length, kv_length, axis=0)
+                mask = op.Expand(mask, shape_11ST)
 
             inputs.extend([None, None, mask])
 
